@@ -12,7 +12,28 @@ def bv(name, w):
     return z3.BitVec(name, w)
 
 
-def mk_inputs(ex, n, tag):
+def mk_inputs(ex, n, tag, concrete=None):
+    """symbolic inputs, or (concrete = dict(entries, failure, transparent)) the same shapes over constants"""
+    global bv
+    if concrete is not None:
+        vals = {}
+        for i, e in enumerate(concrete["entries"]):
+            vals["%s_idx%d" % (tag, i)] = e[0]
+            for c in range(4):
+                vals["%s_e%d_c%d" % (tag, i, c)] = e[1 + c]
+        vals[tag + "_failure"] = concrete["failure"]
+        vals[tag + "_transparent"] = concrete["transparent"] or 0
+        sym_bv = bv
+        bv = lambda name, w: z3.BitVecVal(vals[name], w)
+        try:
+            r = mk_inputs(ex, n, tag)
+        finally:
+            bv = sym_bv
+        palette, options, raw, failure, t_some, t_val, pre = r
+        of = ex.structs.get("MappingOptions")
+        t_some = z3.BoolVal(concrete["transparent"] is not None)
+        options = Struct("MappingOptions", [Int(failure, False) if f == "failure" else Opt(t_some, Int(t_val, False)) for f in of])
+        return palette, options, raw, failure, t_some, t_val, []
     structs = ex.structs
     ent_fields = structs.get("ColorPaletteEntry")
     if not ent_fields or "id" not in ent_fields or "rgba8" not in ent_fields:
@@ -160,21 +181,16 @@ def self_vectors_encoded(fns, structs):
     for failure, transparent in SELF_VECTORS["options"]:
         for q in SELF_VECTORS["queries"]:
             ex = M.Exec(fns, structs)
-            palette, options, raw, fz, tsz, tvz, pre = mk_inputs(ex, len(SELF_VECTORS["entries"]), "s")
-            sub = []
-            for (idx, rgba), e in zip(raw, SELF_VECTORS["entries"]):
-                sub.append((idx, z3.BitVecVal(e[0], 32)))
-                for c, v in zip(rgba, e[1:]):
-                    sub.append((c, z3.BitVecVal(v, 8)))
-            sub += [(fz, z3.BitVecVal(failure, 8)), (tsz, z3.BoolVal(transparent is not None)), (tvz, z3.BitVecVal(transparent or 0, 8))]
+            palette, options, raw, fz, tsz, tvz, pre = mk_inputs(ex, len(SELF_VECTORS["entries"]), "s",
+                                                                 dict(entries=SELF_VECTORS["entries"], failure=failure, transparent=transparent))
             st = State({("in", 0): palette}, [])
             got = None
             for st1, mapper in ex.run(new, [Ref(("in", 0)), options], st):
                 st1.heap[("in", 1)] = mapper
                 for st2, g in ex.run(look, [Ref(("in", 1))] + [Int(z3.BitVecVal(c, 8), False) for c in q], st1):
-                    pc = z3.simplify(z3.substitute(z3.And(st2.pc + [z3.BoolVal(True)]), *sub))
+                    pc = z3.simplify(z3.And(st2.pc + [z3.BoolVal(True)]))
                     if z3.is_true(pc):
-                        got = z3.simplify(z3.substitute(g.bv, *sub)).as_long()
+                        got = z3.simplify(g.bv).as_long()
             out.append(got)
     return out
 
